@@ -26,7 +26,7 @@ PROPS = {
                              "latch:ordered", "latch:race", "latch:count_down-n", "latch:arrive_and_wait", "latch:all-parked-before-final", "spurious-wakeups", "pre-wait-delay"],
         "assumptions": [_A_HANG, "count_down never drives the count below zero (std::latch precondition)"],
         "runs": {
-            "quick": [{"config": "plain", "shards": 16}, {"config": "tsan", "shards": 16, "args": {"n": 123}}, {"config": "asan", "shards": 16, "args": {"n": 123}}],
+            "quick": [{"config": "plain", "shards": 16}, {"config": "tsan", "shards": 16, "args": {"n": 82}}, {"config": "asan", "shards": 16, "args": {"n": 82}}],
             "thorough": [{"config": "plain", "shards": 16, "seeds": 2}, {"config": "tsan", "shards": 16, "args": {"n": 2050}}, {"config": "asan", "shards": 16, "args": {"n": 2050}}],
         },
     },
@@ -45,7 +45,7 @@ PROPS = {
                              "try_lock_shared-failed", "upgrade", "downgrade", "writer-parked", "perturbed"],
         "assumptions": [_A_HANG],
         "runs": {
-            "quick": [{"config": "plain", "shards": 16}, {"config": "tsan", "shards": 16, "args": {"n": 160, "ops": 40}}, {"config": "asan", "shards": 16, "args": {"n": 160}}],
+            "quick": [{"config": "plain", "shards": 16}, {"config": "tsan", "shards": 16, "args": {"n": 96, "ops": 40}}, {"config": "asan", "shards": 16, "args": {"n": 96}}],
             "thorough": [{"config": "plain", "shards": 16, "seeds": 2}, {"config": "tsan", "shards": 16, "args": {"n": 1500, "ops": 80}}, {"config": "asan", "shards": 16, "args": {"n": 1500}}],
         },
     },
@@ -62,7 +62,7 @@ PROPS = {
                              "try_lock_shared-succeeded", "try_lock_shared-failed", "writer-parked", "t2-4", "t5-8"],
         "assumptions": [_A_HANG],
         "runs": {
-            "quick": [{"config": "plain", "shards": 16}, {"config": "tsan", "shards": 16, "args": {"n": 160, "ops": 40}}, {"config": "asan", "shards": 16, "args": {"n": 160}}],
+            "quick": [{"config": "plain", "shards": 16}, {"config": "tsan", "shards": 16, "args": {"n": 96, "ops": 40}}, {"config": "asan", "shards": 16, "args": {"n": 96}}],
             "thorough": [{"config": "plain", "shards": 16, "seeds": 2}, {"config": "tsan", "shards": 16, "args": {"n": 1500, "ops": 80}}, {"config": "asan", "shards": 16, "args": {"n": 1500}}],
         },
     },
@@ -93,7 +93,7 @@ PROPS = {
         "required_classes": ["size=1", "size=2", "size=3", "size=4", "threads<=size", "threads>size", "all-held-reached", "move-construct", "assign-live=live", "assign-live=empty", "assign-empty=live", "self-assign"],
         "assumptions": [_A_HANG],
         "runs": {
-            "quick": [{"config": "plain", "shards": 16}, {"config": "tsan", "shards": 16, "args": {"n": 128, "ops": 80}}, {"config": "asan", "shards": 16, "args": {"n": 128}}],
+            "quick": [{"config": "plain", "shards": 16}, {"config": "tsan", "shards": 16, "args": {"n": 64, "ops": 80}}, {"config": "asan", "shards": 16, "args": {"n": 64}}],
             "thorough": [{"config": "plain", "shards": 16, "seeds": 2}, {"config": "tsan", "shards": 16, "args": {"n": 1200}}, {"config": "asan", "shards": 16, "args": {"n": 1200}}],
         },
     },
@@ -112,8 +112,8 @@ PROPS = {
                              "cancel-mid-run:window-closed", "cancel-gated-pool:wrapper-queued-before-cancel", "dtor-random:after-some-invocations", "dtor-gated:gate-reached", "moved-handle"],
         "assumptions": ["dispenso::getTime() is monotone and consistent across cores to well below 100us"],
         "runs": {
-            "quick": [{"config": "plain", "shards": 16}, {"config": "tsan", "shards": 16, "args": {"n": 320}}, {"config": "asan", "shards": 16, "args": {"n": 320}}],
-            "thorough": [{"config": "plain", "shards": 16, "seeds": 2}, {"config": "tsan", "shards": 16, "args": {"n": 3000}}, {"config": "asan", "shards": 16, "args": {"n": 3000}}],
+            "quick": [{"config": "plain", "shards": 16}, {"config": "tsan", "shards": 16, "args": {"n": 128}}, {"config": "asan", "shards": 16, "args": {"n": 128}}],
+            "thorough": [{"config": "plain", "shards": 16, "seeds": 2}, {"config": "tsan", "shards": 16, "args": {"n": 1600}}, {"config": "asan", "shards": 16, "args": {"n": 1600}}],
         },
     },
     "C45": {
@@ -121,14 +121,14 @@ PROPS = {
         "technique": "runtime monitoring: per-thread value slots compared after join (stability, pairwise distinctness over all threads of a case and over the process); spin-barrier release so first calls collide; TSan build",
         "level_text": "Waves of 1..64 threads (1..3 waves, every 16th case 5..9 waves of 64 = up to 576 threads) are released together and call threadId() 1 or 100 times; dispenso pool workers are included in a quarter of the cases. "
                       "Values must be constant per thread and pairwise distinct over all threads of the case, the main thread and (by-catch) every earlier thread of the process.",
-        "level_note": "A lost update in the id counter needs two first calls within nanoseconds; the spin barrier and the case count make that window reachable but not certain per case.",
+        "level_note": "TSan builds use waves of at most 16 threads (thread creation under TSan costs ~0.2 s per thread on the shared machine). A lost update in the id counter needs two first calls within nanoseconds; the spin barrier and the case count make that window reachable but not certain per case.",
         "design_ref": "DESIGN.md §4 C45",
         "rule": "case = (wave sizes, calls per thread, pool workers); non-trivial = at least two threads compared; distinct by full spec",
         "required_classes": ["one-wave", "multi-wave", "wave-of-64", "wave-of-1", "more-than-256-threads", "pool-workers"],
         "assumptions": [],
         "runs": {
-            "quick": [{"config": "plain", "shards": 16}, {"config": "tsan", "shards": 16, "args": {"n": 48}}],
-            "thorough": [{"config": "plain", "shards": 16, "seeds": 3}, {"config": "tsan", "shards": 16, "args": {"n": 800}}],
+            "quick": [{"config": "plain", "shards": 16}, {"config": "tsan", "shards": 16, "args": {"n": 32, "maxwave": 16}}],
+            "thorough": [{"config": "plain", "shards": 16, "seeds": 3}, {"config": "tsan", "shards": 16, "args": {"n": 200, "maxwave": 16}}],
         },
     },
 }
